@@ -122,7 +122,7 @@ class ParameterValueSet(Contract):
     target = "geoh5py/ui_json/parameters.py::Parameter.value.fset"
     props = ("C15",)
     has_native = True
-    bounded_scope = "StringParameter/IntegerParameter/ValueRestricted x (valid, invalid) value sequences of length 2"
+    bounded_scope = "String/Integer/Float/Bool/ValueRestricted parameters x (valid, then invalid incl. unhashable) assignments"
 
     def setup(self, ctx):
         from geoh5py.shared.exceptions import BaseValidationError
@@ -133,7 +133,10 @@ class ParameterValueSet(Contract):
         def enforce(I, args, kw):
             if I.path.branch(ok, "pool-accepts"):
                 return None
-            raise RaiseSig(BaseValidationError, "EnforcerPool.enforce")
+            # an enforcer refuses with a validation error or, for values it cannot even inspect
+            # (unhashable choice, non-entity object), with a plain TypeError / AttributeError
+            exc = (BaseValidationError, TypeError, AttributeError)[I.path.choose(3, "refusal-kind")]
+            raise RaiseSig(exc, "EnforcerPool.enforce")
 
         old = sym("old", "ref")
         new = sym("new", "ref")
@@ -157,16 +160,23 @@ class ParameterValueSet(Contract):
         yield {"cls": "IntegerParameter", "good": 4, "bad": "x"}
         yield {"cls": "FloatParameter", "good": 4.5, "bad": "x"}
         yield {"cls": "BoolParameter", "good": True, "bad": "x"}
+        yield {"cls": "ValueRestrictedParameter", "good": "a", "bad": ["a"], "args": {"restrictions": ["a", "b"]}}
+        yield {"cls": "ValueRestrictedParameter", "good": "a", "bad": {"k": 1}, "args": {"restrictions": ["a", "b"]}}
+        yield {"cls": "ValueRestrictedParameter", "good": "a", "bad": "zzz", "args": {"restrictions": ["a", "b"]}}
 
     def native_check(self, case):
         from geoh5py.shared.exceptions import BaseValidationError
         from geoh5py.ui_json import parameters
 
-        par = getattr(parameters, case["cls"])("p", case["good"])
+        args = case.get("args") or {}
+        if "restrictions" in args:
+            par = getattr(parameters, case["cls"])("p", args["restrictions"], case["good"])
+        else:
+            par = getattr(parameters, case["cls"])("p", case["good"])
         try:
             par.value = case["bad"]
             return f"invalid value {case['bad']!r} accepted"
-        except BaseValidationError:
+        except Exception:  # the refusal may be a validation error or a plain TypeError / AttributeError
             pass
         if par.value != case["good"] or type(par.value) is not type(case["good"]):
             return f"rejected value {case['bad']!r} was stored (value is now {par.value!r}, was {case['good']!r})"
